@@ -57,6 +57,13 @@ func placeExec(c *Ctx, op string) {
 	os.MkdirAll(whDir, 0755)
 	os.Setenv("RIO_CACHE", cache)
 	os.Setenv("RIO_BASE", filepath.Join(base, "riobase"))
+	// an environment the documentation mentions (the placer doc comment promises a RIO_MOUNT_PLACER switch): whatever it
+	// selects, the shelf stays what it is
+	if len(f) > 3 && strings.HasPrefix(f[3], "env:") {
+		kv := strings.SplitN(strings.TrimPrefix(f[3], "env:"), "=", 2)
+		os.Setenv(kv[0], kv[1])
+		defer os.Unsetenv(kv[0])
+	}
 	ctx := context.Background()
 	pf := api.MustParseFilesetPackFilter(losslessPackStr)
 	uf := api.MustParseFilesetUnpackFilter(losslessUnpackStr)
@@ -821,6 +828,10 @@ func placeEngine(c *Ctx) {
 				ops[i] = strings.Join(x, ":")
 			}
 		}
-		placeExec(c, fmt.Sprintf("place %s %s", strings.Join(ops, ","), filesetTok(fsx)))
+		envTok := ""
+		if k%4 == 2 {
+			envTok = " env:RIO_MOUNT_PLACER=" + []string{"bind", "overlay", "copy", "aufs"}[(k/4)%4]
+		}
+		placeExec(c, fmt.Sprintf("place %s %s%s", strings.Join(ops, ","), filesetTok(fsx), envTok))
 	}
 }
